@@ -139,4 +139,6 @@ def run_replay(nrec):
 TARGETS = [
     {"name": "c02_o1_q_replay_brackets_4_records", "crate": "nervusdb-storage", "run": run_replay(4)},
     {"name": "c02_o1_t_replay_brackets_6_records", "crate": "nervusdb-storage", "run": run_replay(6)},
+    # C17 shares the obligation: "recovers exactly the completely written committed transactions" (a torn bracket must not leak into the next one)
+    {"name": "c17_o5_q_replay_brackets_4_records", "crate": "nervusdb-storage", "run": run_replay(4)},
 ]
